@@ -202,6 +202,19 @@ impl Transform {
         })
     }
 
+    /// Tells if the program is given the path of the original file (`$IN` with `--no-copy`).
+    /// Then its output is a function of that path, not only of the file contents.
+    pub fn sees_original_path(&self) -> bool {
+        let has_in = RefCell::new(false);
+        parse_command(&self.command_str, |s: &str| {
+            if s == "IN" {
+                *has_in.borrow_mut() = true
+            }
+            OsString::from(s)
+        });
+        has_in.into_inner() && !self.copy
+    }
+
     /// Creates the directory where preprocessed files will be stored
     fn create_temp_dir() -> io::Result<PathBuf> {
         let tmp = std::env::temp_dir().join(format!("fclones-{:032x}", Uuid::new_v4().as_u128()));
